@@ -41,6 +41,14 @@ def jsonxTokens (g : LexCfg) (fuel : Nat) (bs : Bytes) : Res (List Tok × Nat ×
 def withParser (c : Cfg) (g : LexCfg) (fuel : Nat) (bs : Bytes) (k : PS → Res Outcome) : Res Outcome :=
   (jsonxTokens g fuel bs).bind fun r => k (PS.init c r.1 r.2.1 r.2.2)
 
+/-- the largest number of lists/objects open at the same time while parsing
+    `bs` as a value (`ToJSON`, `Unmarshal`) or as a typed series -/
+def parseDepth (c : Cfg) (g : LexCfg) (fuel : Nat) (bs : Bytes) (series : Bool) : Res Nat :=
+  (jsonxTokens g fuel bs).bind fun r =>
+  let s := PS.init c r.1 r.2.1 r.2.2
+  if series then (parseSeries c fuel s).bind fun r => .ok r.p.maxDepth
+  else (parseValue c fuel 0 s).bind fun s => .ok s.maxDepth
+
 /-- `jsonx.ToJSON` up to the encoding leaf -/
 def toJSON (c : Cfg) (g : LexCfg) (fuel : Nat) (bs : Bytes) : Res Outcome :=
   withParser c g fuel bs (toJSONToks c fuel)
